@@ -202,9 +202,12 @@ def run(tier: str, only=None) -> core.Result:
     pr_meta: Dict[str, List[Dict[str, Any]]] = {}
     pr_join = do_join = None
     if do_a:
-        pr_meta = {"methods": probes.methods_cases(a_cases), "dumporder": probes.dumporder_cases(a_cases)}
+        pr_meta = {"methods": probes.methods_cases(a_cases), "dumporder": probes.dumporder_cases(a_cases),
+                   "shared": probes.shared_cases(a_cases)}
         pr_join = probes.start(HANDLER, CONFIGS, {"methods": [{"op": "methods", "target": c["target"], "wire": enc(c["wire"])}
-                                                              for c in pr_meta["methods"]]}, n_each=2)
+                                                              for c in pr_meta["methods"]],
+                                                  "shared": [{"op": "shared", "target": c["target"], "wire": enc(c["wire"])}
+                                                             for c in pr_meta["shared"]]}, n_each=2)
         # the dump-order sequences are forked from workers that never validate or dump anything themselves
         do_join = probes.start(HANDLER, CONFIGS, {"dumporder": [{"op": "dumporder", "target": c["target"], "wires": c["wires"],
                                                                  "calls": c["calls"]} for c in pr_meta["dumporder"]]}, n_each=3)
@@ -502,6 +505,21 @@ def run(tier: str, only=None) -> core.Result:
                            f"properties of the object ({len(a.get('called', []))} calls) its dump differs at '{a['changed']['path']}' "
                            f"({a['changed']['via']}) under {backend}; first call that does it: {a.get('culprit')}",
                            {"part": "probe", "case": {"op": "methods", "target": c["target"], "wire": enc(c["wire"])}})
+            pr_info["shared_instance_objects"] = 0
+            for i, c in enumerate(pr_meta["shared"]):
+                if wiregen.is_config_class(wiregen.resolve(c["target"])):
+                    continue
+                pr_info["shared_instance_objects"] += 1
+                bad = {n: m_ans["shared"][n][i]["problem"] for n in m_ans["shared"] if m_ans["shared"][n][i].get("problem")}
+                if bad:
+                    backend = "both" if len(bad) == 2 else next(iter(bad))
+                    pb = next(iter(bad.values()))
+                    pr_info["violations"] += 1
+                    report({"class": "shared-instance-dump-differs", "backend": backend, "model": wiregen.short(c["target"]),
+                            "how": pb.get("kind"), "exception": pb.get("exc")},
+                           f"{wiregen.short(c['target'])} <- {json.dumps(c['wire'], ensure_ascii=True)[:200]}: with one model instance at "
+                           f"two positions of the (non-cyclic) object, {pb.get('via')} under {backend}: {pb}",
+                           {"part": "probe", "case": {"op": "shared", "target": c["target"], "wire": enc(c["wire"])}})
             for n in d_ans["dumporder"]:
                 refs: Dict[Tuple[str, int], Any] = {}
                 for c, a in zip(pr_meta["dumporder"], d_ans["dumporder"][n]):
@@ -694,6 +712,8 @@ def replay_case(args: Dict[str, Any]) -> Dict[str, Any]:
             if args["case"]["op"] == "methods" and a.get("changed"):
                 viol.append({"sig": {"class": "reading-the-object-changes-its-dump", "backend": cfg["name"], "call": a.get("culprit")},
                              "msg": str(a["changed"])})
+            if args["case"]["op"] == "shared" and a.get("problem"):
+                viol.append({"sig": {"class": "shared-instance-dump-differs", "backend": cfg["name"]}, "msg": str(a["problem"])})
             if args["case"]["op"] == "dumporder":
                 ref = workers.fresh_sequence(cfg, HANDLER, [args["reference"]])[0]
                 if workers.line(ref[0]) != workers.line(a[-1]):
